@@ -20,6 +20,17 @@ def install(w):
 
     A_RE = "A-PY re.search/re.match: evaluated with the real `re` module when pattern and subject are literals; otherwise an unconstrained Optional[Match] whose groups are strings"
 
+    RE_START = z3.Function("re_matches_at_start", S, S, I, B)
+    RE_ANY = z3.Function("re_matches_somewhere", S, S, I, B)
+
+    def _re_match_start(ex, st, args):
+        """re_match_start(pattern, subject, flags): re.match(pattern, subject, flags) is not None"""
+        return Val(mkb(RE_START(ex.as_str(st, args[0], None), ex.as_str(st, args[1], None), ex.as_int(st, args[2]))), bool)
+
+    from pyvc.world import SpecFun as _SF
+
+    w.specfuns["re_match_start"] = _SF("re_match_start", _re_match_start)
+
     def _re_call(kind):
         real = getattr(re, kind)
 
@@ -48,7 +59,11 @@ def install(w):
                 st.heap["$el"] = z3.Store(st.arr("$el"), oid, arr_lit([g.t for g in groups]))
                 return obj
             ex.trusted_used.add(A_RE)
-            matched = ex.fresh("re_matched", B)
+            # whether it matches is a fixed (unknown) function of pattern, subject and flags - a different one for match (at the
+            # start) and search (anywhere); a match at the start is a match somewhere
+            ps, ss = ex.as_str(st, pat, node), ex.as_str(st, subj, node)
+            matched = (RE_START if kind == "match" else RE_ANY)(ps, ss, z3.IntVal(fl))
+            st.assume(z3.Implies(RE_START(ps, ss, z3.IntVal(fl)), RE_ANY(ps, ss, z3.IntVal(fl))))
             obj = ex.new_object(st, re.Match)
             oid = V.rid(obj.t)
             n = ex.fresh("re_ngroups", I)
@@ -65,6 +80,33 @@ def install(w):
 
     H["re.search"] = _re_call("search")
     H["re.match"] = _re_call("match")
+
+    # methods of a compiled pattern held in a module-level constant (the real object is read from the imported module)
+    def _re_method(kind):
+        fn = _re_call(kind)
+
+        def h(ex, st, args, kw, node):
+            pobj = args[0].py
+            if not isinstance(pobj, re.Pattern):
+                raise Unsupported(f"re.Pattern.{kind} on a pattern that is not a module-level constant", node)
+            flags = w.const(int(pobj.flags))
+            flags.py = int(pobj.flags)
+            return fn(ex, st, [w.const(pobj.pattern), args[1], flags], {}, node)
+
+        return h
+
+    H["re.Pattern.search"] = _re_method("search")
+    H["re.Pattern.match"] = _re_method("match")
+
+    # thread / process identity: some integer (no property under contract depends on its value)
+    def _some_int(tag):
+        def h(ex, st, args, kw, node):
+            return Val(mki(ex.fresh(tag, I)), int)
+
+        return h
+
+    for nm in ("_thread.get_ident", "threading.get_ident", "os.getpid", "threading.get_native_id", "_thread.get_native_id"):
+        H[nm] = _some_int(nm.replace(".", "_"))
 
     def match_getitem(ex, st, args, kw, node):
         m, idx = args
